@@ -260,11 +260,29 @@ func ValueText(v interface{}) string {
 		sort.Strings(keys)
 		parts := make([]string, len(keys))
 		for i, k := range keys {
-			parts[i] = k + ": " + ValueText(tv[k])
+			if isBareKey(k) {
+				parts[i] = k + ": " + ValueText(tv[k])
+			} else {
+				parts[i] = GQLQuote(k) + ": " + ValueText(tv[k]) // free-form objects (custom scalars) may carry any key
+			}
 		}
 		return "{" + strings.Join(parts, ", ") + "}"
 	}
 	panic(fmt.Sprintf("ValueText: %T", v))
+}
+
+// isBareKey: an ASCII GraphQL name.
+func isBareKey(k string) bool {
+	if k == "" {
+		return false
+	}
+	for i := 0; i < len(k); i++ {
+		b := k[i]
+		if !(b == '_' || (b >= 'a' && b <= 'z') || (b >= 'A' && b <= 'Z') || (i > 0 && b >= '0' && b <= '9')) {
+			return false
+		}
+	}
+	return true
 }
 
 // RawLit is literal text placed verbatim (for numeric spellings such as 1e40).
